@@ -96,6 +96,13 @@ def c12_cases(tier, rng):
             sends.append(mk_send(nid(), rng, size=size, call=True))
         sends.append(mk_send(nid(), rng, size=maxsize * 3, comp="gzip", important=True))
         add(sends, maxsize=maxsize)
+    # every payload size in the window around the peer's limit: each is either refused at the sender or delivered intact
+    for maxsize in ((3000,) if tier == "quick" else (1500, 3000, 9000)):
+        for via in (("pid",) if tier == "quick" else ("pid", "name", "alias")):
+            sends = [mk_send(nid(), rng, size=sz, via=via, important=False) for sz in range(maxsize - 75, maxsize + 12, 1 if tier == "thorough" else 2)]
+            add(sends, maxsize=maxsize, pool=1)
+            sends = [mk_send(nid(), rng, size=sz, via=via, call=True) for sz in range(maxsize - 75, maxsize + 12, 3)]
+            add(sends, maxsize=maxsize, pool=1)
     # boundary sizes, segmentations
     sizes = SIZES if tier == "thorough" else [0, 1, 64, 4064, 4096, 4097, 8192, 65536, 70000]
     for chunk in ((0, 1, 5, 33, 4096) if tier == "thorough" else (0, 5, 4096)):
